@@ -1,4 +1,5 @@
 import OVM.Refine.Inv
+import OVM.Refine.CacheStep
 /-
   C01 — bottom-up queries are the exact inverse of the top-down definitions.
   `CacheInv` (OVM/Refine/Inv.lean) states that every enabled cache equals the brute-force
@@ -105,5 +106,89 @@ example :
     let k : Kernel := { nV := 2, edges := [(0, 1), (1, 0)], eDel := [false, true], vDel := [false, false], nDelE := 1,
                         outHes := [[0], [1]], incHfs := [[], [], [], []], incCell := [] }
     k.cacheInvB = true ∧ k.sOut 0 = [0] := by decide
+
+/-! ## Preservation of the invariant by construction and mode operations (rung B, construction side)
+
+`WF = LenInv ∧ RangeInv ∧ CacheInv` (OVM/Refine/Range.lean).  Proved in OVM/Refine/CacheAdd*.lean,
+CacheMode.lean, CacheReorder.lean, CacheCompute.lean, assembled in CacheStep.lean.
+The theorems here are `_partial` in ONE respect, the vocabulary: `add_vertex`, `add_n_vertices`,
+`add_edge` (both duplicate policies, both outcomes), `add_face` (halfedge and vertex form, checked
+or not, accepted or rejected), `add_cell` (same), `enable_*_bottom_up_incidences`,
+`enable_fast_deletion`, `enable_deferred_deletion` when it does not collect garbage, `clear`.
+Missing: `set_*`, `delete_*`, `swap_*`, `collect_garbage` (deletion side).
+Argument conditions (`OpInRangeAdd`): handles in range (what the C++ asserts; it writes out of
+bounds under NDEBUG otherwise) and `add_cell` only on halffaces not yet used by a live cell (C01's
+stated precondition; the C++ overwrites the incident cell otherwise, so the cache would no longer
+name the first live cell).  `reorder_incident_halffaces` needs no hypothesis: it only stores a
+rearrangement (`reorderList_perm`, C++ since bf387da). -/
+
+/-- one construction / mode operation with in-contract arguments preserves the invariant -/
+theorem reach_construction_partial (k : Kernel) (op : Op) (h : WF k) (hr : OpInRangeAdd k op) :
+    WF (k.step op).1 := wf_step_construction_partial k op h hr
+
+/-- every history of construction / mode operations with in-contract arguments, from any state
+    satisfying the invariant -/
+theorem reach_construction_history_partial (k : Kernel) (ops : List Op) (h : WF k) (hr : HistoryInRangeAdd k ops) :
+    WF (k.run ops) := wf_run_construction_partial k ops h hr
+
+/-- … in particular from the empty mesh: every upward query of the reached state is the
+    brute-force answer -/
+theorem reach_construction_queries_partial (ops : List Op) (hr : HistoryInRangeAdd {} ops) :
+    (((run {} ops).vBU = true → ∀ v, v < (run {} ops).nV → ((run {} ops).qVOH v).Perm ((run {} ops).sOut v)) ∧
+     ((run {} ops).eBU = true → ∀ h, h < (run {} ops).nHE → ((run {} ops).qHEHF h).Perm ((run {} ops).sHfsOfHe h)) ∧
+     ((run {} ops).fBU = true → ∀ hf, hf < (run {} ops).nHF → (run {} ops).cellOf hf = (run {} ops).sCellOf hf)) := by
+  have hw := reach_construction_history_partial {} ops wf_empty hr
+  exact ⟨fun hb v hv => outgoing_halfedges_exact _ hw.cache hb v hv,
+         fun hb h hh => halfedge_halffaces_exact _ hw.cache hb h hh,
+         fun hb hf hh => incident_cell_exact _ hw.cache hb hf hh⟩
+
+/-- `add_cell` under the property's own precondition, read on the result: existing halffaces, and
+    afterwards no halfface is used by two live cells (or twice by one) -/
+theorem reach_add_cell_one_cell (k : Kernel) (hfs : List Nat) (chk : Bool) (h : WF k)
+    (hh : ∀ hf ∈ hfs, hf < k.nHF) (h1 : (k.addCell hfs chk).1.oneCell = true) : WF (k.addCell hfs chk).1 :=
+  wf_addCell_of_oneCell k hfs chk hh h1 h
+
+/-- recomputing a cache gives the scan on EVERY state (no invariant, no range condition) -/
+theorem recompute_is_scan (k : Kernel) :
+    (∀ v, v < k.nV → k.computeVBU.getD v [] = k.sOut v) ∧
+    (∀ h, h < k.nHE → (k.computeEBU.getD h []).Perm (k.sHfsOfHe h)) ∧
+    (∀ hf, hf < k.nHF → k.computeFBU.getD hf none = k.sCellOf hf) :=
+  ⟨computeVBU_getD k, computeEBU_getD k, computeFBU_getD k⟩
+
+/-- `reorder_incident_halffaces` on any edge of any state satisfying the invariant -/
+theorem reorder_preserves (k : Kernel) (e : Nat) (h : WF k) : WF (k.reorder e) :=
+  wf_foldl_reorder [e] k h
+
+/-- non-vacuity: a tetrahedron built through `add_face(vertices)` (find-or-create edges) and a
+    checked `add_cell` (six `reorder` calls), every cache switched off and on again (two full
+    `reorder` sweeps), mode switches, then more construction incl. a de-duplicated `add_edge` and a
+    checked `add_face` — the history satisfies the hypotheses of the theorems above -/
+def tetHistory : List Op :=
+  [.addNVertices 4, .addFaceV [0,1,2], .addFaceV [0,3,1], .addFaceV [1,3,2], .addFaceV [0,2,3],
+   .addCell true [0,2,4,6], .enableBU 1 false, .enableBU 1 true, .enableBU 2 false, .enableBU 2 true,
+   .enableBU 0 false, .enableBU 0 true, .enableDeferred false, .enableFast false,
+   .addVertex, .addEdge 4 0 false, .addEdge 1 0 false, .addFaceHe true [0, 2, 4]]
+
+set_option maxRecDepth 1000000 in
+example : HistoryInRangeAdd {} tetHistory ∧ (run {} tetHistory).nC = 1 ∧ (run {} tetHistory).nE = 7 ∧
+    (run {} tetHistory).hfsOf 0 = [0, 3, 8] :=
+  ⟨historyInRangeAdd_of_B {} tetHistory (by decide), by decide, by decide, by decide⟩
+
+example : WF (run {} tetHistory) :=
+  reach_construction_history_partial {} tetHistory wf_empty
+    (historyInRangeAdd_of_B {} tetHistory (by set_option maxRecDepth 1000000 in decide))
+
+/-- non-vacuity on a non-manifold input (four triangles on one edge, two unchecked three-page
+    "cells" that use halfedge 0 twice): the arguments are in contract (`OpInRangeAdd` holds at every
+    step), so the invariant holds afterwards; `reorder` declines to store its walk `[6,2,0,2]`
+    (before bf387da the C++ stored it, /verif/findings/C01-reorder-drops-halfface.md) -/
+def bookOps : List Op :=
+  [.addNVertices 6, .addFaceV [0,1,2], .addFaceV [0,1,3], .addFaceV [0,1,4], .addFaceV [0,1,5],
+   .addCell false [6,3,0], .addCell false [2,1,4]]
+
+set_option maxRecDepth 1000000 in
+example : HistoryInRangeAdd {} bookOps ∧ (run {} bookOps).hfsOf 0 = [0, 2, 4, 6] ∧ (run {} bookOps).nC = 2 ∧
+    (run {} bookOps).oneCell = true :=
+  ⟨historyInRangeAdd_of_B {} bookOps (by decide), by decide, by decide, by decide⟩
 
 end OVM.Props.C01
